@@ -1,7 +1,7 @@
 #!/usr/bin/env python3
 """C09 lists: B1 tours of MC_List + B2 random list programmes (TraceKs.tla)."""
 import json, os, subprocess
-import common, ks, conc
+import common, ks, conc, sched
 tier = common.tier_arg()
 
 
@@ -39,4 +39,4 @@ ks.family_check(
         "B1 exhaustive within the instance bounds (2 lists, elements {a,b}, length <= 3/4); B2 sampled",
         "blocking pops (BLPOP/BRPOP) are checked on the real clock by check C09's blocking scenarios (harness/cmd/blockpop)"],
     b2_progs=400 if tier == "quick" else 6000,
-    label_filter=lambda b: b.split(".")[0] in LIST_LABELS, extra=blocking)
+    label_filter=lambda b: b.split(".")[0] in LIST_LABELS, extra=lambda v, cov, tier, seed: (blocking(v, cov, tier, seed), sched.family_extra("C09", "list")(v, cov, tier, seed)))
